@@ -38,6 +38,12 @@ const fn mul_add(mut ui_a: u32, mut ui_b: u32, mut ui_c: u32, op: MulAddType) ->
         };
     }
 
+    // a*b - c == a*b + (-c) and c - a*b == (-a)*b + c (negation is exact)
+    match op {
+        MulAddType::SubC => ui_c = ui_c.wrapping_neg(),
+        MulAddType::SubProd => ui_a = ui_a.wrapping_neg(),
+        MulAddType::Add => {}
+    }
     let sign_a = P32E2::sign_ui(ui_a);
     let sign_b = P32E2::sign_ui(ui_b);
     let sign_c = P32E2::sign_ui(ui_c); //^ (op == softposit_mulAdd_subC);
